@@ -15,19 +15,19 @@ CLAIMED = {
     technique="SAT-based bounded model checking (Kani/CBMC) of one inductive step over a symbolic reference-count word; native replay under valgrind",
     design="§4 C03"),
  "C04": dict(
-    text="Bounded model checking (Kani/CBMC) of the real mutable-storage allocator FreeList<T> (instantiated at u8): one weak collection and one allocation (thorough: also mark reset + recount) from EVERY 3-slot pre-state satisfying the invariant; no slot with a held handle is overwritten or freed, the new handle reads back its value, the invariant is re-established.",
-    note="N = 3 slots, >= 2 free before an allocation (growth by 25600 slots and compaction outside). Outside: completeness of the root set and of the marker's traversal of value kinds (need a running VM), the parallel marker.",
-    technique="SAT-based bounded model checking (Kani/CBMC) of one allocator step from a symbolic valid state; native replay by concrete playback",
+    text="Bounded model checking (Kani/CBMC) of the real mutable-storage allocator FreeList<T> (instantiated at u8): one weak collection and one allocation (thorough: also mark reset + recount) from EVERY 3-slot pre-state satisfying the invariant; no slot with a held handle is overwritten or freed, the new handle reads back its value, the invariant is re-established. Plus SMT queries (z3, QF_BV) over the kind tables of the tracing visitors read from the MIR of the real functions (push_back leaf list, visit dispatch, tracing call sites per visit method, SteelValPointer::from_value): no value kind is skipped by the marker or by the reference marker of sync builds while a sibling visitor traces its children.",
+    note="N = 3 slots, >= 2 free before an allocation (growth by 25600 slots and compaction outside). Kind tables: differential between the three implementations of the same scheme (a change made identically to all three is not seen); which children a visit method pushes is interpreted only as a count of tracing call sites. Outside: completeness of the root set (needs a running VM), the order of mark-bit resets, the parallel marker's work distribution.",
+    technique="SAT-based bounded model checking (Kani/CBMC) of one allocator step from a symbolic valid state, and SMT (z3, QF_BV) over MIR-extracted kind tables of the marker visitors; native replay by concrete playback / a collection-and-churn program on the real engine",
     design="§4 C04"),
  "C06": dict(
-    text="Bounded model checking (Kani/CBMC) of the real global symbol table over short symbolic evaluation histories (definitions over 3 names, slot release as the recycler does it, a failed evaluation rolled back as the engine does it) against a ghost table of the binding in force per name.",
-    note="hashbrown replaced by association-list stubs (trusted: finite map/set). Histories: <= 2 successful definitions, 1 definition in the failed evaluation (2 do not fit the solver's memory). Outside: the recycler's reachability scan, the compiler's choice of slots, module roll-back, JIT-embedded slots.",
-    technique="SAT-based bounded model checking (Kani/CBMC) of symbolic operation histories on the real symbol table with a ghost model; native replay by concrete playback",
+    text="Bounded model checking (Kani/CBMC) of the real global symbol table over short symbolic evaluation histories (definitions over 3 names, slot release as the recycler does it, a failed evaluation rolled back as the engine does it) against a ghost table of the binding in force per name. Plus an SMT query over the kind table of the global-slot recycler read from MIR, compared with the markers' tables (no kind whose children the markers trace is skipped by the recycler).",
+    note="hashbrown replaced by association-list stubs (trusted: finite map/set). Histories: <= 3 successful definitions, 1 definition in the failed evaluation (2 do not fit the solver's memory). Outside: the recycler's scan of closure bytecode for global indices, the compiler's choice of slots, module roll-back, JIT-embedded slots.",
+    technique="SAT-based bounded model checking (Kani/CBMC) of symbolic operation histories on the real symbol table with a ghost model, and SMT (z3, QF_BV) over the MIR-extracted kind table of the slot recycler; native replay by concrete playback / a redefinition history on the real engine",
     design="§4 C06"),
  "C07": dict(
-    text="Bounded model checking (Kani/CBMC) with panic/overflow/shift/division checks on: real numeric primitives (arithmetic-shift and abs at full width, expt with exponent -30, the division family on stated operand ranges) return Ok or Err and never panic; a failed evaluation rolled back in the real symbol table leaves no residue. Plus one SMT query (z3, QF_BV) per registered built-in procedure over its MIR: no argument count reaches an out-of-bounds access of the argument vector, a failing sub-slice args[n..], or an unwrapped conversion of an argument.",
-    note="Kernel level only; in the MIR queries only branch conditions on the argument count are interpreted. Outside: arbitrary source text (reader not encodable, see C12), expansion/compilation, stack reset after errors, native stack depth.",
-    technique="SAT-based bounded model checking (Kani/CBMC) of real primitives with Kani's panic checks, and SMT (z3, QF_BV) over the MIR of all registered built-in procedures for argument-vector accesses; native replay by concrete playback / a script call under catch_unwind",
+    text="Bounded model checking (Kani/CBMC) with panic/overflow/shift/division checks on: real numeric primitives (arithmetic-shift and abs at full width, expt with exponent -30, the division family on stated operand ranges) return Ok or Err and never panic; a failed evaluation rolled back in the real symbol table leaves no residue. Plus one SMT query (z3, QF_BV) per registered built-in procedure over its MIR: no argument count reaches an out-of-bounds access of the argument vector, a failing sub-slice args[n..], or an unwrapped conversion of an argument; and (kinds) no choice of argument count, argument KINDS (37 variants of SteelVal), integer payloads and sharing reaches an explicit panic (panic!/unreachable!/todo!) of a script-callable procedure or numeric kernel along a fully interpreted path. Plus Kani harnesses of the byte-vector and string index procedures through their registered wrappers with full-width symbolic indices.",
+    note="Kernel level only; in the MIR queries branch conditions on the argument count, on the discriminant and integer payload of an argument and on uniqueness tests are interpreted, paths through any other branch are dropped (counted in evidence); panics inside callees are not seen. Index harnesses: 2-byte vectors, 3-character strings; lists, persistent vectors, substring, make-bytes measured out. Outside: arbitrary source text (reader not encodable, see C12), expansion/compilation, stack reset after errors, native stack depth.",
+    technique="SAT-based bounded model checking (Kani/CBMC) of real primitives with Kani's panic checks, and SMT (z3, QF_BV) over the MIR of all registered built-in procedures for argument-vector accesses and for panic sites against symbolic argument kinds; native replay by concrete playback / a script call under catch_unwind",
     design="§4 C07"),
  "C19": dict(
     text="Bounded model checking (Kani/CBMC) of the real allocator's accounting from every 3-slot pre-state: a slot without any handle is free after a weak collection; after mark_all_unreachable + marks + recount the free count equals the number of unmarked slots; the fill ratio stays in [0,1].",
@@ -35,15 +35,20 @@ CLAIMED = {
     technique="SAT-based bounded model checking (Kani/CBMC) of allocator accounting steps from a symbolic valid state",
     design="§4 C19"),
  "C20": dict(
-    text="Bounded model checking (Kani/CBMC) of the real scalar conversions at the host boundary on full-width symbolic values: Ok(v) only with the same mathematical value, out of range => Err, host integers never wrap on the way in (big integer above the machine word), round trips are the identity. Plus an SMT query per register_fn wrapper closure (MIR -> QF_BV, z3): no two different argument counts reach the host function call.",
+    text="Bounded model checking (Kani/CBMC) of the real scalar conversions at the host boundary on full-width symbolic values: Ok(v) only with the same mathematical value, out of range => Err, host integers never wrap on the way in (big integer above the machine word), round trips are the identity. Plus an SMT query per register_fn wrapper closure (MIR -> QF_BV, z3): no two different argument counts reach the host function call, and parameter k of the host call is computed from exactly args[k].",
     note="Scalars only (i8..u128, f32, f64, char, bool, unit, Option<i32>, big-integer sources up to 2^66); arity: only branch conditions on the argument-slice length are interpreted, every other branch is free. Outside: strings/vectors/maps/sets/tuples/structs, argument value extraction in register_fn (needs an Engine), lent references (nursery is a destructor-bearing thread-local).",
-    technique="SAT-based bounded model checking (Kani/CBMC) of the real conversion impls on full-width symbolic scalars, and SMT (z3, QF_BV) over the MIR of the register_fn wrapper closures for the arity half; native replay by concrete playback / a script call through the real Engine",
+    technique="SAT-based bounded model checking (Kani/CBMC) of the real conversion impls on full-width symbolic scalars, and SMT (z3, QF_BV) over the MIR of the register_fn wrapper closures for arity and argument-to-parameter mapping; native replay by concrete playback / a script call through the real Engine",
     design="§4 C20"),
  "C10": dict(
-    text="Bounded model checking with Kani/CBMC of the real numeric primitives on symbolic operands (full 64-bit width for + - negate abs parity arithmetic-shift int/float equality; stated smaller ranges for division, multiplication values, expt, rationals) against a 128-bit oracle and a canonical-form check; counterexamples are replayed natively with Kani's concrete playback, which runs the real code.",
-    note="Trusted: Kani/CBMC; num-bigint (its `BigInt += isize`/`*= isize` are modelled by exact i128 arithmetic and the x86 carry intrinsics by their definition); feature set without jit2. `BigInt << u32` and `BigInt::pow` are recording stubs. Outside: the specialised arithmetic opcodes inlined in the VM loop, the constant folder, number<->string, gcd/lcm, expt beyond exponent -1/-30, full-width division and multiplication values, big-integer division, big operands above two limbs.",
-    technique="SAT-based bounded model checking (Kani/CBMC) of the real primitives with a 128-bit arithmetic oracle; native replay by concrete playback",
+    text="Bounded model checking with Kani/CBMC of the real numeric primitives on symbolic operands (full 64-bit width for + - negate abs parity arithmetic-shift int/float equality; exact of every integral double; magnitude; machine integer by big integer quotient with a division model; stated smaller ranges for division, multiplication values, expt, rationals) against a 128-bit oracle and a canonical-form check; counterexamples are replayed natively with Kani's concrete playback, which runs the real code.",
+    note="Trusted: Kani/CBMC; num-bigint (its `BigInt += isize`/`*= isize` are modelled by exact i128 arithmetic and the x86 carry intrinsics by their definition); feature set without jit2. `BigInt << u32` and `BigInt::pow` are recording stubs; num-bigint's long division is replaced by an exact model valid for quotient digit 0/1 (num_*_i_big). One SMT query (z3) per numeric kernel over its MIR: every pair of number kinds is handled without reaching unreachable!(). Outside: the specialised arithmetic opcodes inlined in the VM loop, the constant folder, number<->string, gcd/lcm, expt beyond exponent -1/-30, full-width division and multiplication values, big-integer division, big operands above two limbs.",
+    technique="SAT-based bounded model checking (Kani/CBMC) of the real primitives with a 128-bit arithmetic oracle, and SMT (z3, QF_BV) over the MIR of the numeric kernels for kind-pair totality; native replay by concrete playback / a script call",
     design="§4 C10"),
+ "C11": dict(
+    text="PARTIAL (sequences only): bounded model checking (Kani/CBMC) of the registered wrappers of bytes-ref, bytes-set!, bytes-copy, string-ref (thorough: bytes->string/utf8, integer->char) on a 2-byte vector / 3-character string with symbolic contents and full-width symbolic integer arguments: the answer is the one the mathematical sequence gives exactly for the valid indices and an error otherwise. The equal? / hashing statements of the property are NOT decided by any check.",
+    note="Measured out: the real equality handler (drop glue of 37 variants per loop iteration: >1200 s, 12 GB; harness/eq.rs kept as the record; defect F7 documented from a native reproduction only), hashing (SipHash + HAMT), lists / persistent vectors / hash maps / hash sets (1200 s timeouts), substring, make-bytes. One operation at a time, not operation sequences.",
+    technique="SAT-based bounded model checking (Kani/CBMC) of real sequence primitives through their registered wrappers against a mathematical-sequence oracle; native replay by concrete playback",
+    design="§4 C11"),
  "C15": dict(engine="mir-bmc",
     text="Bounded model checking of the stop-the-world protocol: per-thread automata are extracted from the compiler's MIR of the real functions (safepoint entry/exit, poll, stop/resume, stack enumeration, global-table swap, collection and global-definition entry points), composed with a symbolic scheduler and unrolled into a bit-vector SMT formula; the solver either shows no schedule within the bound lets a world-stopper look at a thread that is running interpreter code, or returns a schedule, which is replayed on the real engine through cfg-guarded scheduling hooks.",
     note="Trusted: rustc's MIR dump, the vocabulary/assumption tables in lib/mirbmc.py, z3. Assumed: sequentially consistent atomics, native threads only, all threads registered; a thread may start with a stale unpark token. Bounds: 2 threads (quick) / 3 (thorough), K <= 28..40 scheduler steps (one step = one shared access; covers a stop request up to its first scan window and wait loop, not a whole stop-resume cycle). Thorough tier: recorded traces of the real engine must be runs of the model (conformance). Outside: native-code tier, make_thread forks, weak memory.",
@@ -66,7 +71,6 @@ NOT_APPLICABLE = {
  "C02": "needs execution of run-time generated Cranelift machine code and the C01 pipeline; no symbolic engine here executes generated code (DESIGN §4 C02)",
  "C08": "continuation capture/reinstatement are VmCore methods over a live frame stack; no unit-level state can be built without a running engine (DESIGN §4 C08)",
  "C09": "frame reuse is inlined in the 1400-line VmCore::vm dispatch loop whose static reach is the whole interpreter; the quantity (space over 10^7 iterations) is not a bounded-unrolling question (DESIGN §4 C09)",
- "C11": "measured: the real equality handler drops the two values it popped at every loop iteration; CBMC cannot resolve their variant and executes the drop glue of every SteelVal variant: the two-level shapes never left symbolic execution (>1200 s, 12 GB), and the one-step pair harness (harness/eq.rs) finished once in 146 s and timed out at 1200 s in four later runs, so it does not meet the calibration rule; hashing and the collection-vs-model half need hash containers (not tractable, see C03). The defect F7 it was aimed at is recorded in DESIGN §5 from the round-0 native reproduction",
  "C12": "measured: a 2-byte symbolic input through the real lexer does not leave CBMC's symbolic execution in 15 min / 5 GB; a smaller bound would be weaker than the existing lexer tests (DESIGN §4 C12)",
  "C13": "macro expansion is AST rewriting over interned identifiers; the observable (which binding an identifier resolves to) exists only after compiling and running the expansion (DESIGN §4 C13)",
  "C14": "module instantiation needs the C01 pipeline plus the file system and the engine's module table (DESIGN §4 C14)",
